@@ -83,7 +83,7 @@ Geo(e) ==
       msk == IF ~fb THEN <<65535>> ELSE IF e.bpp = 8 THEN <<255>> ELSE [k \in 1..Bpp |-> MaskByte(e.ci, k - 1)]
   IN [cons |-> e.cons, w |-> e.w, h |-> e.h, pitch |-> e.pitch, bpp |-> e.bpp, ci |-> e.ci,
       gw |-> e.gw, gh |-> e.gh, bpr |-> e.bpr, offY |-> e.offY, clear |-> e.clear,
-      Bpp |-> Bpp, rowB |-> e.w * Bpp, cols |-> GridCols(e), rows |-> GridRows(e),
+      Bpp |-> Bpp, rowB |-> e.w * Bpp, gridB |-> GridCols(e) * e.gw * Bpp, cols |-> GridCols(e), rows |-> GridRows(e),
       mask |-> msk, full |-> \A k \in 1..Bpp : msk[k] = (IF fb THEN 255 ELSE 65535)]
 
 \* the elements of one painted pixel / text cell
@@ -104,16 +104,27 @@ ApplyDiff(rows, d, i) ==
   ELSE LET r == d[i][1] + 1  c == d[i][2]  b == d[i][3]  old == rows[r]
        IN ApplyDiff([rows EXCEPT ![r] = SubSeq(old, 1, c) \o b \o SubSeq(old, c + Len(b) + 1, Len(old))], d, i + 1)
 
-\* a span that is not inside rows r0..r1, elements c0..c1 (all 0-based, inclusive): <<>> if none
-Outside(g, d, r0, r1, c0, c1, what) ==
-  LET S == {i \in 1..Len(d) : ~(d[i][1] >= r0 /\ d[i][1] <= r1 /\ d[i][2] >= c0 /\ d[i][2] + Len(d[i][3]) - 1 <= c1)} IN
-  IF S = {} THEN <<>>
-  ELSE LET i == CHOOSE j \in S : \A k \in S : j <= k
-           lastc == d[i][2] + Len(d[i][3]) - 1
-           where == IF d[i][1] < g.offY THEN "in the logo rows"
-                    ELSE IF lastc >= g.rowB THEN "in the row padding"
-                    ELSE "in another cell"
-       IN <<what, where, "row", d[i][1], "elements", d[i][2], lastc, "allowed rows", r0, r1, "allowed elements", c0, c1>>
+\* Elements that belong to no cell although they are visible pixels below the logo: the margin right of the last
+\* whole cell column and the pixel rows below the last whole text line.  The statement speaks about cells, so these
+\* elements are unconstrained (they are inside the framebuffer and are not padding); r, c are 0-based.
+Free(g, r, c) == r >= g.offY /\ c < g.rowB /\ (c >= g.gridB \/ r >= g.offY + g.rows * g.gh)
+
+\* an element that changed although it lies neither in rows r0..r1, elements c0..c1 (0-based, inclusive) nor in
+\* the free area: <<>> if none.  A span runs from the first to the last changed element of its row and may
+\* contain unchanged elements, so elements outside the allowed region are compared with their old value.
+Outside(g, old, got, d, r0, r1, c0, c1, what) ==
+  LET In(r, c) == (r >= r0 /\ r <= r1 /\ c >= c0 /\ c <= c1) \/ Free(g, r, c)
+      Bad(i) == LET r == d[i][1]  a == d[i][2]  z == d[i][2] + Len(d[i][3]) - 1 IN
+                IF r >= r0 /\ r <= r1 /\ a >= c0 /\ z <= c1 THEN {}
+                ELSE {c \in a..z : ~In(r, c) /\ got[r + 1][c + 1] # old[r + 1][c + 1]}
+      S == {i \in 1..Len(d) : Bad(i) # {}}
+  IN IF S = {} THEN <<>>
+     ELSE LET i == CHOOSE j \in S : \A k \in S : j <= k
+              c == CHOOSE x \in Bad(i) : \A y \in Bad(i) : x <= y
+              where == IF d[i][1] < g.offY THEN "in the logo rows"
+                       ELSE IF c >= g.rowB THEN "in the row padding"
+                       ELSE "in another cell"
+          IN <<what, where, "row", d[i][1], "element", c, "allowed rows", r0, r1, "allowed elements", c0, c1>>
 
 NoChange(g, d, what) ==
   IF d = <<>> THEN <<>>
@@ -127,7 +138,7 @@ WriteCheck(g, old, got, e) ==
   LET X == W32!ToNat(e.x)  Y == W32!ToNat(e.y)
       r0 == g.offY + (Y - 1) * g.gh
       c0 == (X - 1) * g.gw * g.Bpp
-      out == Outside(g, e.d, r0, r0 + g.gh - 1, c0, c0 + g.gw * g.Bpp - 1, "Write changed elements outside the addressed cell")
+      out == Outside(g, old, got, e.d, r0, r0 + g.gh - 1, c0, c0 + g.gw * g.Bpp - 1, "Write changed elements outside the addressed cell")
   IN IF out # <<>> THEN out
      ELSE IF ~IsFb(g)
      THEN LET want == VgaCell(e.ch, e.fg, e.bg)  v == got[r0 + 1][c0 + 1] IN
@@ -165,7 +176,7 @@ FillCheck(g, old, got, e) ==
   ELSE
   LET r0 == g.offY + (Y - 1) * g.gh   r1 == r0 + Ht * g.gh - 1
       c0 == (X - 1) * g.gw * g.Bpp    c1 == c0 + Wd * g.gw * g.Bpp - 1
-      out == Outside(g, e.d, r0, r1, c0, c1, "Fill changed elements outside the clipped rectangle")
+      out == Outside(g, old, got, e.d, r0, r1, c0, c1, "Fill changed elements outside the clipped rectangle")
       BG == IF IsFb(g) THEN Pack(g, e.bg) ELSE <<VgaCell(g.clear, e.fg, e.bg)>>
       seg == [i \in 1..(c1 - c0 + 1) |-> BG[((i - 1) % g.Bpp) + 1]]
       \* (exact equality first: it is the common case and a native comparison)
@@ -183,9 +194,10 @@ FillCheck(g, old, got, e) ==
                     "got", got[r + 1][c0 + i], "want", seg[i]>>
 
 (* ---- Scroll ---- *)
-\* visible parts of two rows agree (on the constrained bits)
-VisEq(g, a, b) == IF g.full THEN SubSeq(a, 1, g.rowB) = SubSeq(b, 1, g.rowB)
-                  ELSE \A c \in 1..g.rowB : (a[c] & g.mask[((c - 1) % g.Bpp) + 1]) = (b[c] & g.mask[((c - 1) % g.Bpp) + 1])
+\* the parts of two rows that belong to the cell grid agree (on the constrained bits); the margin right of the last
+\* whole cell column belongs to no cell and is not compared
+VisEq(g, a, b) == IF g.full THEN SubSeq(a, 1, g.gridB) = SubSeq(b, 1, g.gridB)
+                  ELSE \A c \in 1..g.gridB : (a[c] & g.mask[((c - 1) % g.Bpp) + 1]) = (b[c] & g.mask[((c - 1) % g.Bpp) + 1])
 
 ScrollCheck(g, old, got, e) ==
   IF ~InGrid(e.n, g.rows) THEN NoChange(g, e.d, "Scroll by an invalid line count changed the buffer")
@@ -199,13 +211,13 @@ ScrollCheck(g, old, got, e) ==
       Src(t) == IF up THEN t + n * g.gh ELSE t - n * g.gh
       \* strict: nothing above offY and nothing in the padding may change
       padSpans == {i \in 1..Len(e.d) : e.d[i][1] >= g.offY /\ e.d[i][2] + Len(e.d[i][3]) - 1 >= g.rowB}
-      strictOut == Outside(g, e.d, g.offY, g.h - 1, 0, g.rowB - 1, "Scroll changed elements outside the text area")
+      strictOut == Outside(g, old, got, e.d, g.offY, g.h - 1, 0, g.rowB - 1, "Scroll changed elements outside the text area")
       \* the named deviation: padding element of a row may take the value of the same element n lines away
       PadDevOK == \A i \in padSpans :
                     LET r == e.d[i][1]  sr == IF up THEN r + n * g.gh ELSE r - n * g.gh IN
                     sr >= g.offY /\ sr <= g.h - 1 /\
                     \A c \in (g.rowB + 1)..g.pitch : got[r + 1][c] = old[r + 1][c] \/ got[r + 1][c] = old[sr + 1][c]
-      logoOut == Outside(g, e.d, g.offY, g.h - 1, 0, g.pitch - 1, "Scroll changed elements outside the text area")
+      logoOut == Outside(g, old, got, e.d, g.offY, g.h - 1, 0, g.pitch - 1, "Scroll changed elements outside the text area")
       bad == {t \in Dst : ~VisEq(g, got[g.offY + t + 1], old[g.offY + Src(t) + 1])}
   IN IF logoOut # <<>> THEN logoOut
      ELSE IF padSpans # {} /\ ~("ScrollCopiesPadding" \in Devs /\ PadDevOK)
